@@ -94,6 +94,137 @@ def is_ref(t):
     return not isinstance(t, str) and t[0] == "ref"
 
 
+# ---------------------------------------------------------------------------------------------
+# AVM budgets.  An application call may log at most 32 entries / 1024 bytes in total and carry at most 2048 bytes of
+# ApplicationArgs.  The method bodies built here LOG every parameter (that is how the binding is observed), so a call
+# whose observations would not fit is not a valid experiment: the generator keeps every call inside these limits
+# (types by their minimal encoding size, values by shrinking dynamic parts), and run_case skips (and counts) a call
+# that is over budget instead of running it.
+# ---------------------------------------------------------------------------------------------
+LOG_BYTES_MAX = 1024
+LOG_BYTES_TARGET = 960
+LOG_COUNT_MAX = 32
+APP_ARGS_BYTES_MAX = 2048
+TYPE_MIN_MAX = 200          # largest minimal encoding of one parameter type
+SIG_MIN_MAX = 700           # sum over a signature
+
+
+def min_value(L):
+    if L == "bool":
+        return False
+    h = L[0]
+    if h == "uint":
+        return 0
+    if h == "arr":
+        return bytes(L[2]) if L[1] == ("uint", 8) else [min_value(L[1]) for _ in range(L[2])]
+    if h == "dyn":
+        return b"" if L[1] == ("uint", 8) else []
+    if h == "tup":
+        return [min_value(x) for x in L[1:]]
+    raise ValueError(L)
+
+
+def min_size(t):
+    """length of the shortest encoding of a plain type; observation size for transaction / reference parameters"""
+    if is_txn(t):
+        return 16 + 12
+    if is_ref(t):
+        return 40
+    L = layout(t)
+    return len(CL.enc(L, min_value(L)))
+
+
+def shrink_value(L, v):
+    """a strictly shorter-encoding value of the same type, or None"""
+    if L == "bool" or L[0] == "uint":
+        return None
+    h = L[0]
+    if h == "dyn":
+        if len(v) > 0:
+            w = v[: len(v) // 2]
+            if isinstance(w, (bytes, bytearray)):
+                # byte strings stay valid UTF-8 (the same value is also passed where the type says `string`)
+                while w:
+                    try:
+                        w.decode("utf-8")
+                        break
+                    except UnicodeDecodeError:
+                        w = w[:-1]
+            return w
+        return None
+    if h in ("arr", "tup"):
+        if isinstance(v, (bytes, bytearray)):
+            return None
+        Ls = [L[1]] * L[2] if h == "arr" else list(L[1:])
+        best, bi = None, None
+        for i, (Li, vi) in enumerate(zip(Ls, v)):
+            sv = shrink_value(Li, vi)
+            if sv is not None:
+                gain = len(CL.enc(Li, vi)) - len(CL.enc(Li, sv))
+                if best is None or gain > best[0]:
+                    best, bi = (gain, sv), i
+        if best is None:
+            return None
+        out = list(v)
+        out[bi] = best[1]
+        return out
+    return None
+
+
+def observation_sizes(m, args):
+    """bytes every log entry of the method body takes for this call (marker, parameters, return)"""
+    out = [8]
+    for t, a in zip(m["params"], args):
+        if is_txn(t):
+            out.append(16 + len(a["note"]))
+        elif is_ref(t):
+            out.append(40 if t[1] == "account" else 16)
+        else:
+            out.append(len(CL.enc(layout(t), a)))
+    if m["ret"] is not None:
+        if m["mode"].startswith("param:"):
+            out.append(4 + out[1 + int(m["mode"][6:])])
+        elif m["mode"] == "lit":
+            out.append(4 + len(CL.enc(layout(m["ret"]), m["lit"])))
+        else:
+            out.append(12)
+    return out
+
+
+def app_args_size(m, args):
+    return 4 + sum(1 if is_ref(t) else len(CL.enc(layout(t), a)) for t, a in zip(m["params"], args) if not is_txn(t))
+
+
+def within_budget(m, args):
+    sz = observation_sizes(m, args)
+    return len(sz) <= LOG_COUNT_MAX and sum(sz) <= LOG_BYTES_MAX and app_args_size(m, args) + 64 <= APP_ARGS_BYTES_MAX
+
+
+def fit_call(m, args):
+    """shrink dynamic parts of the largest plain arguments (and of a literal result) until the call's observations fit"""
+    args = list(args)
+    for _ in range(400):
+        sz = observation_sizes(m, args)
+        if sum(sz) <= LOG_BYTES_TARGET:
+            break
+        cands = sorted(((sz[1 + i], i) for i, t in enumerate(m["params"]) if not is_txn(t) and not is_ref(t)), reverse=True)
+        done = False
+        for _size, i in cands:
+            sv = shrink_value(layout(m["params"][i]), args[i])
+            if sv is not None:
+                args[i] = sv
+                done = True
+                break
+        if not done and m["ret"] is not None and m["mode"] == "lit":
+            sv = shrink_value(layout(m["ret"]), m["lit"])
+            if sv is not None:
+                m["lit"] = sv
+                done = True
+        if not done:
+            break
+    return args
+
+
 def gen_params(rng, profile):
     if profile == "small":
         n = rng.randrange(0, 6)
@@ -120,7 +251,21 @@ def gen_params(rng, profile):
         elif r < w[1] + w[2]:
             out.append(rng.choice(REF_TYPES))
         else:
-            out.append(gen_plain(rng, rng.choice([0, 0, 1, 1, 2])))
+            t = gen_plain(rng, rng.choice([0, 0, 1, 1, 2]))
+            for _try in range(20):
+                if min_size(t) <= TYPE_MIN_MAX:
+                    break
+                t = gen_plain(rng, rng.choice([0, 0, 1]))
+            else:
+                t = ("uint", 64)
+            out.append(t)
+    # keep the minimal observation size of the whole signature inside the log budget: replace the largest plain types
+    while sum(min_size(t) for t in out) > SIG_MIN_MAX:
+        i = max((i for i, t in enumerate(out) if not is_txn(t) and not is_ref(t)), key=lambda i: min_size(out[i]), default=None)
+        if i is None or min_size(out[i]) <= 8:
+            out.pop()
+            continue
+        out[i] = rng.choice([("uint", 64), "bool", ("uint", 16), "string"])
     return out
 
 
@@ -132,10 +277,18 @@ def gen_ret(rng, params):
         return None, "void"
     if r < 0.5 and plain:
         k = rng.choice(plain)
-        return params[k], "param:%d" % k
+        if 2 * min_size(params[k]) + sum(min_size(t) for t in params) <= SIG_MIN_MAX + 100:
+            return params[k], "param:%d" % k
+        return ("uint", 64), "sum"
     if r < 0.7:
         return ("uint", 64), "sum"
     t = gen_plain(rng, rng.choice([0, 1, 2]))
+    for _try in range(20):
+        if min_size(t) <= 120:
+            break
+        t = gen_plain(rng, rng.choice([0, 1]))
+    else:
+        t = "string"
     return t, "lit"
 
 
@@ -187,7 +340,7 @@ def gen_case(rng, profile, nmethods=None, ncalls=2):
         methods.append(m)
     case = {"methods": methods, "target": 0, "calls": []}
     for c in range(ncalls):
-        call = {"args": gen_args(rng, methods[0]["params"], tagbase=100 * c),
+        call = {"args": fit_call(methods[0], gen_args(rng, methods[0]["params"], tagbase=100 * c)),
                 "before": [gen_txn(rng, "any", 900 + j) for j in range(rng.choice([0, 0, 1, 2]))],
                 "after": [gen_txn(rng, "any", 950 + j) for j in range(rng.choice([0, 0, 0, 1]))]}
         ntx = sum(1 for t in methods[0]["params"] if is_txn(t))
@@ -222,7 +375,7 @@ def boundary_cases(rng, thorough):
                 m["lit"] = b"r%d" % n
             case = {"methods": [m], "target": 0, "calls": []}
             for c in range(2):
-                case["calls"].append({"args": gen_args(rng, params, 100 * c), "before": [gen_txn(rng, "any", 900)] if c else [], "after": []})
+                case["calls"].append({"args": fit_call(m, gen_args(rng, params, 100 * c)), "before": [gen_txn(rng, "any", 900)] if c else [], "after": []})
             out.append(case)
     return out
 
@@ -614,7 +767,7 @@ def static_checks(case, out):
 def new_out():
     return {"model": [], "plan_mismatch": [], "bind_mismatch": [], "fail": [], "contract": [], "contract_corr": [], "notes": [], "unsup": {},
             "n": {"client": 0, "encodings": 0, "atc": 0, "atc_unusable": 0, "model_bind": 0, "compiles": 0, "runs": 0, "neg_runs": 0,
-                  "contract": 0, "approve": 0, "inconclusive": 0, "reg_rejects": 0},
+                  "contract": 0, "approve": 0, "inconclusive": 0, "reg_rejects": 0, "over_avm_budget": 0},
             "plan": None}
 
 
@@ -676,6 +829,10 @@ def run_case(case, combos, do_static=True):
         msel = [(s, CL.selector(s)) for s in method_lines(teal)]
         # ---- (4) behaviour ----
         for ci, (c, call) in enumerate(zip(calls, case["calls"])):
+            if not within_budget(m, call["args"]):
+                # not a valid experiment: logging every parameter would exceed the AVM's log / argument budget
+                out["n"]["over_avm_budget"] += 1
+                continue
             ctx, gi = call_ctx(c, call["before"], call["after"], msel)
             res = mdl.ask((S("run"), ctx, teal))
             verdict, logs = logs_of(res)
